@@ -221,7 +221,14 @@ func (h *Handler) WithAttrs(attrs []slog.Attr) slog.Handler {
 
 // WithGroup returns a new Handler with the given group appended to
 // the receiver's existing groups.
+//
+// As required by [slog.Handler], an empty group name opens no group:
+// WithGroup returns the receiver.
 func (h *Handler) WithGroup(group string) slog.Handler {
+	if group == "" {
+		return h
+	}
+
 	newGroups := make([]string, len(h.groups)+1)
 	copy(newGroups, h.groups)
 	newGroups[len(h.groups)] = group
